@@ -639,7 +639,7 @@ func isIdentifierStart(c rune) bool {
 		return true
 	case c < 128:
 		return false
-	case unicode.In(c, unicode.Lu, unicode.Ll, unicode.Lt, unicode.Lm, unicode.Lo, unicode.Nl):
+	case unicode.In(c, unicode.Lu, unicode.Ll, unicode.Lt, unicode.Lm, unicode.Lo, unicode.Nl, unicode.Other_ID_Start):
 		return true
 	}
 	return false
@@ -658,7 +658,7 @@ func isIdentifierChar(c rune) bool {
 		return true
 	case c < 128:
 		return false
-	case unicode.In(c, unicode.Lu, unicode.Ll, unicode.Lt, unicode.Lm, unicode.Lo, unicode.Nl, unicode.Mn, unicode.Mc, unicode.Nd, unicode.Pc):
+	case unicode.In(c, unicode.Lu, unicode.Ll, unicode.Lt, unicode.Lm, unicode.Lo, unicode.Nl, unicode.Mn, unicode.Mc, unicode.Nd, unicode.Pc, unicode.Other_ID_Start, unicode.Other_ID_Continue):
 		return true
 	}
 	return false
